@@ -11,11 +11,13 @@ V: TamperTrace (TLC, ProtoCore.tla): receiver output = sender message selected b
 import os, json
 import vlib
 import C04
+import prod_common
 
 PC = os.path.join(vlib.SPECS, "ProtoCore")
 
 
 def run(chk):
+    prod_common.background(prod_common.run_otvole, chk)    # VSOT, SoftSpoken, rvole/softspoken on k256 / P-256 (family ProdProto)
     obin = vlib.build("otvole")
     tbin = vlib.build("tamper")
     if chk.quick:
@@ -73,5 +75,7 @@ def run(chk):
 
 def replay(chk, path):
     c = json.load(open(path))["case"]
+    if c.get("a") in ("sign", "keygen", "ot", "vole"):
+        return 1 if prod_common.replay(c, tier=chk.tier) else 0
     print(json.dumps({k: v for k, v in c.items() if k != "out"})[:3000])
     return 0
